@@ -93,8 +93,8 @@ def atomic_facts(fn, prog, bb, tb=None):
     return out
 
 
-def int_bounds(facts, x):
-    """(lo, hi) implied for integer term x by atomic facts (None = unbounded)"""
+def int_bounds(facts, x, unsigned=True):
+    """(lo, hi) implied for integer term x by atomic facts (None = unbounded); with unsigned=True `x != 0` gives x >= 1"""
     lo, hi = None, None
 
     def upd_lo(v):
@@ -138,6 +138,8 @@ def int_bounds(facts, x):
                     upd_lo(c + 1 if strict else c)
                 else:
                     upd_hi(c if strict else c - 1)
+        if unsigned and t[0] == "op" and t[1] in ("Ne", "Eq") and len(t[2]) == 2 and x in t[2] and const(0) in t[2] and truth == (t[1] == "Ne"):
+            upd_lo(1)
         if t[0] == "op" and t[1] == "Eq" and len(t[2]) == 2 and truth:
             a, b = t[2]
             if a == x and b[0] == "const":
@@ -181,3 +183,37 @@ def panic_sites(fn):
         elif t.k == "assert":
             out.append((bi, "Assert:" + t.j["kind"], None, t.span))
     return out
+
+
+def fv(d, cond):
+    """truth value of `cond` in a dict repr(term) -> bool of branch facts, using integer dualities:
+    a < b  <=>  !(b <= a);   a == b  <=>  !(a != b);   Not(x)  <=>  !x"""
+    r = repr(cond)
+    if r in d:
+        return d[r]
+    if cond[0] == "op":
+        n, a = cond[1], cond[2]
+        if n == "Not" and len(a) == 1:
+            v = fv(d, a[0])
+            return None if v is None else (not v)
+        if n in ("Lt", "Le") and len(a) == 2:
+            dual = ("op", "Le" if n == "Lt" else "Lt", (a[1], a[0]))
+            if repr(dual) in d:
+                return not d[repr(dual)]
+            if n == "Lt" and a[0] == const(0):      # unsigned: 0 < x  <=>  x != 0
+                for nm, flip in (("Ne", False), ("Eq", True)):
+                    r2 = repr(mk(nm, a[1], const(0)))
+                    if r2 in d:
+                        return (not d[r2]) if flip else d[r2]
+        if n in ("Eq", "Ne") and len(a) == 2:
+            dual = mk("Ne" if n == "Eq" else "Eq", a[0], a[1])
+            if repr(dual) in d:
+                return not d[repr(dual)]
+            # unsigned: x != 0  <=>  0 < x
+            if const(0) in a:
+                x = [y for y in a if y != const(0)]
+                if len(x) == 1:
+                    pos = ("op", "Lt", (const(0), x[0]))
+                    if repr(pos) in d:
+                        return d[repr(pos)] if n == "Ne" else (not d[repr(pos)])
+    return None
